@@ -10,6 +10,9 @@ XOR_RE = re.compile(r'b_0\.iter\(\)\.zip\(&b_vals\[([^\]]*?)\.\.([^\]]*?)\]\)\.e
 
 def build(src, workdir):
     u = Unit('expand', src)
+    # `vec![x; n]` expands to ::alloc::vec::from_elem (specified by vstd); make the path resolvable so that a body using it is judged against
+    # the postcondition instead of being rejected as unsupported
+    u.HEAD = u.HEAD.replace("verus! {", "extern crate alloc;\nverus! {")
     u.add("global size_of usize == 8;")
     u.add(spec_text('expand.vrs'))
 
@@ -25,6 +28,12 @@ def build(src, workdir):
         lo, hi = ' '.join(m.group(1).split()), ' '.join(m.group(2).split())
         b = b[:m.start()] + f"xor_into(&mut tmp, &b_0, vec_range(&b_vals, {lo}, {hi}));" + b[m.end():]
         u.rewrites['R5x'] = u.rewrites.get('R5x', 0) + 1
+        # R19: a function-local `const NAME: [u8; N] = ...;` -> `let NAME: [u8; N] = ...;` (Verus rejects the array-repeat initialiser in const
+        # context); `&NAME[..]` on such an array -> `NAME.as_slice()`
+        for nm in re.findall(r'\bconst\s+([A-Z_0-9]+)\s*:\s*\[u8;', b):
+            b = re.sub(r'\bconst\s+' + nm + r'\s*:', f'let {nm}:', b)
+            b = re.sub(r'&' + nm + r'\[\.\.\]', f'{nm}.as_slice()', b)
+            u.rewrites['R19'] = u.rewrites.get('R19', 0) + 1
         k = len(re.findall(r'&([a-z_0-9]+)\[\.\.\]', b))
         b = re.sub(r'&([a-z_0-9]+)\[\.\.\]', r'\1.full()', b)
         u.rewrites['R12'] = u.rewrites.get('R12', 0) + k
